@@ -50,7 +50,7 @@ def run(seed, tier, lean) -> Result:
                       'duplication, truncation, swapped brackets, reserved words as names, stray characters / unterminated strings, in the root or in an '
                       'included file; three-way agreement: Lean parser errors <=> ANTLR with counting listeners reports >= 1 error => the real compiler '
                       'raises; non-trivial = the mutant lexes cleanly but is rejected by the grammar')
-    n = 400 if tier == 'quick' else 15000
+    n = 400 if tier == 'quick' else 2400
     cases = []
     for i in range(n):
         r = random.Random(rnd.getrandbits(48))
